@@ -95,6 +95,7 @@ template <class X> struct F {
 };
 
 static F<ApiA>* fA; static F<ApiW>* fW;
+static void wide_above_255(Ctx& c, const Str& name8, bool ux);
 static void run_case(Ctx& c, uint64_t idx) {
     if (!fA) { fA = new F<ApiA>(); fW = new F<ApiW>(); }
     if (idx < 4) { if (idx & 1) fW->short_forms(c); else fA->short_forms(c); return; }
@@ -113,7 +114,32 @@ static void run_case(Ctx& c, uint64_t idx) {
     c.note(fmt("file %s \"%s\"", ux ? "unix" : "windows", esc(name.substr(0, 200)).c_str()));
     c.distinct(hash_str(name, ux));
     if (idx % 2) fW->run(c, name, ux); else fA->run(c, name, ux);
+    if (idx % 16 == 7 && name.size() <= 80) wide_above_255(c, name, ux);
     if (idx % 20000 == 5) c.sample(ux ? "unix" : "windows", esc(name));
+}
+// File names with wide characters above U+00FF (wchar_t API): the property speaks of "any" file name. The pinned library escapes such a
+// character by its low byte, so it comes back as another character (or ends the name, if that byte is 0) -- a recorded finding
+// (KNOWN_FINDINGS.txt); the diagnoser confirms exactly that behaviour, anything else is reported on its own.
+static void wide_above_255(Ctx& c, const Str& name8, bool ux) {
+    typedef ApiW X; typedef wchar_t Char;
+    std::basic_string<wchar_t> w = widen<X>(name8);
+    static const unsigned HI[] = {0x141, 0x20AC, 0x416, 0x4E2D, 0xFFFD, 0x1F600, 0x2500, 0x100, 0xFF0D, 0x22F};
+    size_t lo = 0; if (!ux) { if (w.size() >= 3 && w[1] == L':') lo = 3; else if (w.size() >= 2 && w[0] == L'\\' && w[1] == L'\\') lo = 3; } else if (!w.empty() && w[0] == L'/') lo = 1;
+    if (lo > w.size()) lo = w.size();
+    int n = 1 + (int)c.rng.below(2); for (int i = 0; i < n; i++) { size_t p = lo + c.rng.below((uint32_t)(w.size() - lo) + 1); w.insert(w.begin() + (long)p, (wchar_t)HI[c.rng.below(10)]); }
+    if (!ux && lo == 0 && w.size() >= 2 && w[1] == L':') return;      // the insertion made it "x:..." without being drive-absolute: outside C18's domain
+    std::vector<Char> uri(8 + 3 * w.size() + 1 + 4, 0); int rc; { LibScope ls; rc = ux ? X::UnixFilenameToUriString(w.c_str(), uri.data()) : X::WindowsFilenameToUriString(w.c_str(), uri.data()); }
+    c.evaluations++; c.count("file_wide_above_255");
+    Str shown; for (wchar_t ch : w) shown += (unsigned)ch > 255 ? fmt("\\u{%X}", (unsigned)ch) : esc(Str(1, (char)ch));
+    Str what = fmt("%s filename \"%s\"", ux ? "unix" : "windows", shown.c_str());
+    if (rc != URI_SUCCESS) { c.violation("C18", "file/W/above-255/conversion-failed", what + fmt(" rc=%d", rc)); return; }
+    size_t len = xstrlen<X>(uri.data()); if (len >= 8 + 3 * w.size() + 1) { c.violation("C18", "file/W/above-255/uri-string-exceeds-documented-size", what); return; }
+    std::vector<Char> back(len + 2, 0); { LibScope ls; rc = ux ? X::UriStringToUnixFilename(uri.data(), back.data()) : X::UriStringToWindowsFilename(uri.data(), back.data()); }
+    std::basic_string<wchar_t> got(back.data());
+    if (rc == URI_SUCCESS && got == w) { c.count("file_wide_above_255_round_trip_ok"); return; }
+    std::basic_string<wchar_t> legacy; for (wchar_t ch : w) { wchar_t v = (unsigned)ch > 255 ? (wchar_t)((unsigned)ch & 0xFF) : ch; if (!v) break; if (!ux && v == L'/') v = L'\\'; legacy.push_back(v); }      // a low byte 0x2F is a slash, which the Windows direction turns into a backslash
+    if (rc == URI_SUCCESS && got == legacy) c.violation("C18", "file/W/character-above-U+00FF-comes-back-as-its-low-byte", what);
+    else c.violation("C18", "file/W/above-255/round-trip-differs-otherwise", what + fmt(" rc=%d", rc));
 }
 static void fuzz_one(Ctx& c, const unsigned char* d, size_t n) {
     if (!fA) { fA = new F<ApiA>(); fW = new F<ApiW>(); }
